@@ -343,6 +343,29 @@ func (e engine) Execute(prop string, plan sim.Plan, seed uint64, res *sim.RunRes
 					res.Violate("C18", "cache-effective-annotation", "C18 cache-effective-annotation", step, "GetEffectiveAnnotation(%q, %q) = (%q,%v), reference (container-specific > pod > bare) gives (%q,%v); annotations: %v", key, c.Target, gv, gok, wv, wok, c.Annotations)
 				}
 			}
+			if c.N%2 == 0 {
+				// the same question after a restart: a second cache instance on
+				// the state directory the first one has saved the pod to
+				res.Check("cache-effective-annotation")
+				if err := cch.Save(); err != nil {
+					panic(err)
+				}
+				c2, err := cache.NewCache(cache.Options{CacheDir: filepath.Join(root, "state")})
+				if err != nil {
+					panic(fmt.Errorf("second cache instance on the saved state: %w", err))
+				}
+				if rp, ok := c2.LookupPod(pod.Id); !ok {
+					res.Violate("C18", "cache-effective-annotation", "C18 cache-effective-annotation after-restart pod-lost", step, "pod %s is not in the cache restored from the state directory", pod.Id)
+				} else {
+					for _, key := range []string{"prefer-shared-cpus" + rpSuffix, "memory-type" + rpSuffix} {
+						gv, gok := rp.GetEffectiveAnnotation(key, c.Target)
+						wv, wok := refEffective(c.Annotations, key, c.Target)
+						if gv != wv || gok != wok {
+							res.Violate("C18", "cache-effective-annotation", "C18 cache-effective-annotation after-restart", step, "restored pod: GetEffectiveAnnotation(%q, %q) = (%q,%v), reference gives (%q,%v); annotations: %v", key, c.Target, gv, gok, wv, wok, c.Annotations)
+						}
+					}
+				}
+			}
 			cch.DeletePod(pod.Id)
 			// ---- (b) sgx-epc
 			res.Check("sgx-epc-limit")
